@@ -410,3 +410,45 @@ class SystemInfoDeadChipStep:
 
     def ensures_dead_exactly_when_nothing_is_held_for_it(x, y, g_responded, _yielded):
         return implies(not g_responded, len(_yielded) == 1 and _yielded[0] == (x, y)) and implies(g_responded, len(_yielded) == 0)
+
+
+# ---- get_system_info: one entry of the P2P table (fragment) ---------------------------------------------------------------------
+import z3   # noqa: E402
+from pyvc.values import ListV, NONE, ObjV, ExcV   # noqa: E402,F401
+def _gci(E, obj, args, kwargs, st, node):
+    from pyvc.engine import Raised
+    s = st.copy()
+    s.trace = ListV(s.trace.items + (("get_chip_info",) + tuple(args),))
+    ok = s.assume(z3.Not(st.env["g_no_answer"]))
+    bad = s.assume(st.env["g_no_answer"])
+    return [(ok, ObjV("ChipInfo", {"ident": 3}), None), (bad, Raised(ExcV("SCPError", ())), None)]
+
+
+def _si_set(E, obj, args, kwargs, st, node):
+    s = st.copy()
+    s.trace = ListV(s.trace.items + (("held_for", args[0], args[1].fields["ident"]),))
+    return [(s, NONE, None)]
+
+
+@contract("rig/machine_control/machine_controller.py::MachineController.get_system_info@forbody:0")
+class SystemInfoProbeStep:
+    """one entry of the P2P table: a chip the table has NO route to is not probed and not listed; a chip it has a route to is
+    probed - exactly that chip - and what it answers is held under exactly its coordinates; a chip that does not answer is
+    simply not listed (it will count as dead)"""
+    properties = ("C14",)
+    params = dict(self=TRec("MachineController"), x=TInt(0, 255), y=TInt(0, 255), p2p_route=TInt(0, 7), sys_info=TRec("SystemInfo"), g_no_answer=TBool())
+    fragment_result = ()
+    fragment_head = "for (x, y), p2p_route in iteritems(p2p_tables):"
+    externals = {"MachineController.get_chip_info": _gci, "SystemInfo.__setitem__": _si_set}
+    options = {"int_class": "rig/machine_control/consts.py::P2PTableEntry", "no_merge": True}
+    assumptions = ["get_chip_info (its own contract) is recorded: it answers or raises SCPError (ghost); the result object is opaque"]
+
+    def native(x):
+        raise __import__("pyvc.replay", fromlist=["OutsideHarness"]).OutsideHarness()
+
+    def ensures_probed_iff_routable_and_listed_iff_it_answers(x, y, p2p_route, g_no_answer, _trace):
+        routable = p2p_route != 6          # P2P table code 6: no route (sark: the chip is absent or dead)
+        return (implies(not routable, len(_trace) == 0)
+                and implies(routable, len(_trace) >= 1 and _trace[0] == ("get_chip_info", x, y))
+                and implies(routable and g_no_answer, len(_trace) == 1)
+                and implies(routable and not g_no_answer, len(_trace) == 2 and _trace[1] == ("held_for", (x, y), 3)))
